@@ -166,6 +166,16 @@ func oracleC09(c *props.Case) (verdict props.Verdict) {
 				if l.Class == "save" {
 					cand = append(cand, i)
 				}
+			case "retrieve":
+				// the step that fetches the configuration
+				switch l.Text {
+				case "sh run", "write term", "iptables-save", "ip route show":
+					cand = append(cand, i)
+				default:
+					if l.Class == "readonly" && (strings.Contains(l.Text, "action=get") || strings.HasPrefix(l.Text, "GET ")) {
+						cand = append(cand, i)
+					}
+				}
 			case "joined1":
 				if l.Class == "change" && i+1 < n && (jm.has(l.Text, oc.Lines[i+1].Text) || linuxJoined(l.Text, oc.Lines[i+1].Text)) {
 					cand = append(cand, i)
